@@ -750,10 +750,49 @@ def cpp_runtime_ir(ctx: core.Ctx):
                     for inst in cppast.kids(m):
                         if inst.get("kind") == "CXXMethodDecl":
                             body = structure_continue(cppast.body_of(inst))
-                            if body is not None:
+                            if body is not None and inst.get("name") in ("processUpdate", "tick"):
+                                # the step function / tick written as a member template (e.g. over an optional control pack): each
+                                # instantiation is one concrete overload
+                                entry[inst["name"]].append((cppast.params_of(inst), body, inst.get("loc", {}).get("line")))
+                            elif body is not None:
                                 entry["helpers"].setdefault(inst["name"], []).append((cppast.params_of(inst), body))
                 if m.get("kind") == "CXXRecordDecl" and m.get("name") == "State":
                     fields["State"] = [f.get("name") for f in cppast.kids(m) if f.get("kind") == "FieldDecl"]
+    return out
+
+
+_MISUSE_CACHE: Dict[str, Dict[Any, bool]] = {}
+
+
+def misuse_witnesses(ctx: core.Ctx) -> Dict[Any, bool]:
+    """compile-fail witnesses for the tick overloads: {(takes_control, takes_readings): does the WRONG kind of filter compile a call of it?}.
+    A tick that takes control called on a filter without control inputs (ControlT = std::false_type), and a tick without control called on a
+    filter that has them, must each be rejected by the compiler -- however the header expresses that (static_assert, requires, enable_if)."""
+    key = ctx.repo
+    if key in _MISUSE_CACHE:
+        return _MISUSE_CACHE[key]
+    out: Dict[Any, bool] = {}
+    inc = [os.path.join(ctx.repo, "cpp/runtime/include")]
+    td = tempfile.mkdtemp(prefix="fvmis.")
+    try:
+        for takes_control in (False, True):
+            for takes_readings in (False, True):
+                impl_ctl = 0 if takes_control else 1          # the wrong kind of filter for this overload
+                ns = f"m{int(takes_control)}{int(takes_readings)}"
+                impl = IMPL % dict(ns=ns, calT="std::false_type", ctlT="stub::Ctl" if impl_ctl else "std::false_type", calparam="",
+                                   ctlparam=", const stub::Ctl&" if impl_ctl else "")
+                carg = ", std::false_type{}" if takes_control else ""
+                rd = f", std::vector<formak::runtime::ManagedFilter<{ns}::Impl>::StampedReading>{{}}" if takes_readings else ""
+                drive = f"  formak::runtime::ManagedFilter<{ns}::Impl> mf(0.0, stub::SV{{}});\n  mf.tick(1.0{carg}{rd});"
+                src = STUB_TU % dict(impls=impl, drive=drive)
+                tu = os.path.join(td, f"{ns}.cpp")
+                open(tu, "w").write(src)
+                r = cppast.clang(sum((["-I", i] for i in inc), []) + [tu])
+                out[(takes_control, takes_readings)] = r.returncode == 0
+    finally:
+        import shutil
+        shutil.rmtree(td, ignore_errors=True)
+    _MISUSE_CACHE[key] = out
     return out
 
 
@@ -945,8 +984,29 @@ def py_runtime_func(ctx: core.Ctx, cls, name, keep=("_process_model", "tick")):
     mod = ctx.parse("py/formak/runtime.py")
     fn = core.need(core.find_func(cls, name), f"runtime.ManagedFilter.{name}")
     out = normast.inline_only(fn, normast.class_resolver(mod, cls, exclude=set(keep)))
-    for h in getattr(out, "_inlined", []):
+    inl = list(getattr(out, "_inlined", []))
+    for h in inl:
         ctx.functions.append(f"runtime.ManagedFilter.{h} (inlined into {name})")
+    # values packaged in a module-level namedtuple are unpacked into their fields, module constants folded in
+    nts = normast.module_namedtuples(mod)
+    consts = normast.module_constants(mod)
+    if nts or consts:
+        nz = normast.Normaliser(None, consts=consts, namedtuples=nts)
+        nz.caller_names = {n.id for n in ast.walk(out) if isinstance(n, ast.Name)}
+        body = normast.split_assign(out.body, nts)
+        body = normast.split_assign(nz.nt_unpack(body), nts)
+        out.body = body
+        if consts:
+            class K(ast.NodeTransformer):
+                def visit_Name(self, n):
+                    if isinstance(n.ctx, ast.Load) and n.id in consts and n.id not in shadow:
+                        return ast.copy_location(copy.deepcopy(consts[n.id]), n)
+                    return n
+            import copy
+            shadow = {n.id for n in ast.walk(out) if isinstance(n, ast.Name) and isinstance(n.ctx, ast.Store)} | {a.arg for a in ast.walk(out) if isinstance(a, ast.arg)}
+            out = K().visit(out)
+        ast.fix_missing_locations(out)
+    out._inlined = inl
     return out
 
 
@@ -1147,6 +1207,12 @@ class TickExec:
                     self.calls_in(y, out)
         if self.is_step(e) or self.is_update(e) or self.is_tick(e):
             out.append(e)
+        elif e[0] == "mcall" and e[1] == ("this",):
+            # a method of the managed filter itself that is neither the step function nor tick and was not inlined: what it does to the held
+            # estimate is unknown -- nothing may be concluded from the rest
+            msg = f"call of the filter's own method `{e[2]}` could not be inlined (its effect on the held estimate is unknown)"
+            if msg not in self.problems:
+                self.problems.append(msg)
 
     def targets_text(self, t):
         if t is None:
